@@ -216,7 +216,11 @@ def coefficient(repo, res, a: UfuncAnchors):
             bad_defs.append((kind, detail))
     res.check(not bad_defs and n_rule >= 2, "mul-defs", fn.where(), "the coefficient must be element 0 of what the ufunc's unit rule returned for the operand unit(s) (or of the power mapping for reductions), or the literal 1", "rule(u) | rule(u0, u1) | _apply_power_mapping(ufunc, u, inp.size, inp.shape, kwargs) | 1", bad_defs, rid=r3)
     # dimensionless-ratio shortcut
-    sc = [n for n in ast.walk(ast.Module(body=a.binary, type_ignores=[])) if isinstance(n, ast.If) and norm(n.test) == "u0.dimensions == u1.dimensions"]
+    # (the test `u0.dimensions == u1.dimensions` may stand alone in a nest of ifs or be one conjunct of a merged condition)
+    def _conjuncts(t):
+        return [norm(v) for v in t.values] if isinstance(t, ast.BoolOp) and isinstance(t.op, ast.And) else [norm(t)]
+
+    sc = [n for n in ast.walk(ast.Module(body=a.binary, type_ignores=[])) if isinstance(n, ast.If) and "u0.dimensions == u1.dimensions" in _conjuncts(n.test) and not n.orelse]
     ok = False
     if len(sc) == 1:
         stm = [norm(s) for s in sc[0].body]
@@ -224,8 +228,30 @@ def coefficient(repo, res, a: UfuncAnchors):
     res.check(ok, "ratio-shortcut", fn.where(sc[0]) if sc else fn.where(), "for a dimensionless ratio of commensurable units the data are multiplied by the ratio's scale and the unit reset, both or neither", found=[norm(s) for s in sc[0].body] if sc else None, rid=r3)
     if sc:
         # guards: only under dimensionless unit with base_value != 1
-        par = [n for n in ast.walk(ast.Module(body=a.binary, type_ignores=[])) if isinstance(n, ast.If) and norm(n.test) == "unit.is_dimensionless and unit.base_value != 1.0"]
-        res.check(len(par) == 1 and any(s is sc[0] for s in ast.walk(par[0])), "ratio-shortcut-guard", fn.where(), "the shortcut applies only to a dimensionless result unit whose scale is not 1", rid=r3)
+        # every test that must hold for the shortcut's statements to run: the conjuncts of all enclosing if-tests (body arms)
+        guards_ = set(_conjuncts(sc[0].test))
+
+        def _enclosing(stmts, target):
+            for st in stmts:
+                if st is target:
+                    return []
+                if isinstance(st, ast.If):
+                    r_ = _enclosing(st.body, target)
+                    if r_ is not None:
+                        return _conjuncts(st.test) + r_
+                    r_ = _enclosing(st.orelse, target)
+                    if r_ is not None:
+                        return r_
+                for fld in ("body", "orelse", "finalbody"):
+                    if not isinstance(st, ast.If) and isinstance(getattr(st, fld, None), list):
+                        r_ = _enclosing(getattr(st, fld), target)
+                        if r_ is not None:
+                            return r_
+            return None
+
+        enc = _enclosing(a.binary, sc[0])
+        guards_ |= set(enc or [])
+        res.check(enc is not None and "unit.is_dimensionless" in guards_ and ("unit.base_value != 1.0" in guards_ or "unit.base_value != 1" in guards_), "ratio-shortcut-guard", fn.where(), "the shortcut applies only to a dimensionless result unit whose scale is not 1", "unit.is_dimensionless and unit.base_value != 1.0 among the enclosing tests", sorted(guards_), rid=r3)
 
 
 def reductions(repo, res, a: UfuncAnchors):
